@@ -55,7 +55,13 @@ class LxmlEventHandler(XmlHandler):
         Returns:
             An instance of the class type representing the parsed content.
         """
+        ended: Any = None
         for event, element in context:
+            if ended is not None:
+                # The tail is only complete when the next tag has been read
+                self.end_element(ended)
+                ended = None
+
             if event == EventType.START:
                 self.parser.start(
                     self.clazz,
@@ -66,25 +72,36 @@ class LxmlEventHandler(XmlHandler):
                     element.nsmap,
                 )
             elif event == EventType.END:
-                self.parser.end(
-                    self.queue,
-                    self.objects,
-                    element.tag,
-                    get_text(element),
-                    get_tail(element),
-                )
-                element.clear()
+                ended = element
             elif event == EventType.START_NS:
                 prefix, uri = element
                 self.parser.register_namespace(ns_map, prefix or None, uri)
             else:
                 raise XmlHandlerError(f"Unhandled event: `{event}`.")
 
+        if ended is not None:
+            self.end_element(ended)
+
         if self.queue:
             # The tokenizer gave up before the root element was closed
             return None
 
         return self.objects[-1][1] if self.objects else None
+
+    def end_element(self, element: Any) -> None:
+        """Push the end event of the element to the main parser.
+
+        Args:
+            element: The lxml element instance
+        """
+        self.parser.end(
+            self.queue,
+            self.objects,
+            element.tag,
+            get_text(element),
+            get_tail(element),
+        )
+        element.clear()
 
 
 def get_text(element: Any) -> str | None:
